@@ -397,6 +397,20 @@ def run_check(prop, tier, seed, replay=None, jobs=None):
     else:
         obligations, discharged, axiom_details = len(lane.THEOREMS), 0, []
 
+    # thorough tier: independent re-check of the compiled proof modules of this property
+    leanchecker = None
+    if build_ok and tier == 'thorough' and lane.AUDIT and not replay:
+        mods = []
+        for ln in open(os.path.join(LEAN_DIR, lane.AUDIT), encoding='utf-8'):
+            ln = ln.strip()
+            if ln.startswith('import CG.'):
+                mods.append(ln.split()[1])
+        if mods:
+            rc2, out2 = sh(['lake', 'env', 'leanchecker'] + mods, cwd=LEAN_DIR, timeout=1800)
+            leanchecker = {'modules': mods, 'ok': rc2 == 0}
+            if rc2 != 0:
+                machinery.append('leanchecker rejected the compiled modules: ' + out2[-500:])
+
     src_obl = lane.source_obligations()
 
     results = []
@@ -478,39 +492,42 @@ def run_check(prop, tier, seed, replay=None, jobs=None):
         c = crashes[0]
         emit(c['case'], 'lane-crash', {'traceback': c['crash']}, suffix=' no-failing-input-found')
 
+    # every oracle failure is classified by its signature; unknown signatures are violations (shrunk first)
     reported_sigs = set()
-    for r in oracle_fails[:50]:
-        case = r['case']
-        if hasattr(lane, 'shrink') and not replay:
-            try:
-                _W.setdefault('lane', lane)
-                if 'client' not in _W:
-                    _W['client'] = ModelClient()
-                case = lane.shrink(case, lambda c: bool(eval_case(lane, _W['client'], c).get('oracle')))
-                r2 = eval_case(lane, _W['client'], case)
-                if r2.get('oracle'):
-                    r = r2
-            except Exception:
-                pass
+    unknown = []
+    for r in oracle_fails:
         for failure in r['oracle'][:3]:
             sig = lane.signature(r['case'], failure)
             if sig in open_sigs:
                 seen_known[sig] = open_sigs[sig]
-                continue
-            if sig in reported_sigs:
-                continue
-            reported_sigs.add(sig)
-            if len(violations) < 5:
-                emit(r['case'], 'property-fails-on-implementation', {'failure': failure, 'signature': sig,
-                                                                     'diffs': r.get('diffs', [])})
-    if not oracle_fails or (oracle_fails and not violations and not seen_known):
-        pass
+            elif sig not in reported_sigs:
+                reported_sigs.add(sig)
+                unknown.append((r, failure, sig))
+    for r, failure, sig in unknown[:5]:
+        case = r['case']
+        if not replay:
+            try:
+                _W.setdefault('lane', lane)
+                if 'client' not in _W:
+                    _W['client'] = ModelClient()
+
+                def still(c, _sig=sig):
+                    rr = eval_case(lane, _W['client'], c)
+                    return any(lane.signature(c, f) == _sig for f in rr.get('oracle', []))
+                small = lane.shrink(case, still)
+                r2 = eval_case(lane, _W['client'], small)
+                keep = [f for f in r2.get('oracle', []) if lane.signature(small, f) == sig]
+                if keep:
+                    case, failure, r = small, keep[0], r2
+            except Exception:  # noqa: BLE001 - shrinking is best effort
+                pass
+        emit(case, 'property-fails-on-implementation', {'failure': failure, 'signature': sig, 'diffs': r.get('diffs', [])})
     if corr_breaks and not violations:
-        # correspondence broken but the oracle found no failing input among the generated cases
-        only_known = all(any(lane.signature(r['case'], f) in open_sigs for f in r['oracle']) for r in corr_breaks
-                         if r['oracle']) and all(r['oracle'] for r in corr_breaks)
-        if not only_known:
-            r = next(r for r in corr_breaks if not r['oracle'])
+        # correspondence broken on cases where the oracle saw nothing (or only listed findings)
+        rest = [r for r in corr_breaks
+                if not r['oracle'] or not all(lane.signature(r['case'], f) in open_sigs for f in r['oracle'])]
+        if rest:
+            r = rest[0]
             emit(r['case'], 'correspondence-broken',
                  {'what_no_longer_checks': f'correspondence lane {prop}: model and implementation disagree',
                   'first_disagreements': r['diffs'], 'disagreeing_cases': len(corr_breaks)},
@@ -547,6 +564,7 @@ def run_check(prop, tier, seed, replay=None, jobs=None):
             'input_distribution': tags, 'exhaustive': bool(getattr(lane, 'EXHAUSTIVE', {}).get(tier, False)),
             'known_findings_seen': sorted(k['id'] for k in seen_known.values()),
             'generated_files_changed': gen_changed,
+            'leanchecker': leanchecker,
         },
         'assumptions': [lane.LEVEL_NOTE] if lane.LEVEL_NOTE else [],
         'wall_s': round(time.time() - t0, 2), 'violations': len(violations),
